@@ -150,6 +150,8 @@ impl<'a> ArgsIter<'a> {
 //@     !old(self).in_cluster() && old(self).rest_tokens().len() > 0 ==> final(self).rest_tokens() == old(self).rest_tokens().drop_first(),
 //@     !old(self).in_cluster() && old(self).rest_tokens().len() == 0 ==> final(self).rest_tokens() == old(self).rest_tokens() && r is None,
 //@     r matches Some(Arg::Value(_)) ==> !final(self).in_cluster(),
+//@     r matches Some(Arg::Value(v)) ==> !old(self).in_cluster() && old(self).rest_tokens().len() > 0
+//@         && v.spec_bytes() == old(self).rest_tokens()[0],   // [C08]
 //@ ---
 //@ let ghost v0 = self.view();
 //@ let ghost toks0 = self.tokens.view();
